@@ -215,65 +215,66 @@ func (g *FakeGS) HasOption(name string) bool {
 	return g.Options[name]
 }
 
-func (g *FakeGS) unreg() graphsync.UnregisterHookFunc {
+func (g *FakeGS) unreg(clear func()) graphsync.UnregisterHookFunc {
 	return func() {
 		g.mu.Lock()
 		g.Unregistered++
+		clear()
 		g.mu.Unlock()
 	}
 }
 
 func (g *FakeGS) RegisterIncomingRequestHook(h graphsync.OnIncomingRequestHook) graphsync.UnregisterHookFunc {
 	g.IncomingRequestHook = h
-	return g.unreg()
+	return g.unreg(func() { g.IncomingRequestHook = nil })
 }
 func (g *FakeGS) RegisterIncomingResponseHook(h graphsync.OnIncomingResponseHook) graphsync.UnregisterHookFunc {
 	g.IncomingResponseHook = h
-	return g.unreg()
+	return g.unreg(func() { g.IncomingResponseHook = nil })
 }
 func (g *FakeGS) RegisterIncomingBlockHook(h graphsync.OnIncomingBlockHook) graphsync.UnregisterHookFunc {
 	g.IncomingBlockHook = h
-	return g.unreg()
+	return g.unreg(func() { g.IncomingBlockHook = nil })
 }
 func (g *FakeGS) RegisterOutgoingRequestHook(h graphsync.OnOutgoingRequestHook) graphsync.UnregisterHookFunc {
 	g.OutgoingRequestHook = h
-	return g.unreg()
+	return g.unreg(func() { g.OutgoingRequestHook = nil })
 }
 func (g *FakeGS) RegisterOutgoingBlockHook(h graphsync.OnOutgoingBlockHook) graphsync.UnregisterHookFunc {
 	g.OutgoingBlockHook = h
-	return g.unreg()
+	return g.unreg(func() { g.OutgoingBlockHook = nil })
 }
 func (g *FakeGS) RegisterRequestUpdatedHook(h graphsync.OnRequestUpdatedHook) graphsync.UnregisterHookFunc {
 	g.RequestUpdatedHook = h
-	return g.unreg()
+	return g.unreg(func() { g.RequestUpdatedHook = nil })
 }
 func (g *FakeGS) RegisterOutgoingRequestProcessingListener(l graphsync.OnRequestProcessingListener) graphsync.UnregisterHookFunc {
 	g.OutgoingProcessing = l
-	return g.unreg()
+	return g.unreg(func() { g.OutgoingProcessing = nil })
 }
 func (g *FakeGS) RegisterIncomingRequestProcessingListener(l graphsync.OnRequestProcessingListener) graphsync.UnregisterHookFunc {
 	g.IncomingProcessing = l
-	return g.unreg()
+	return g.unreg(func() { g.IncomingProcessing = nil })
 }
 func (g *FakeGS) RegisterCompletedResponseListener(l graphsync.OnResponseCompletedListener) graphsync.UnregisterHookFunc {
 	g.CompletedResponse = l
-	return g.unreg()
+	return g.unreg(func() { g.CompletedResponse = nil })
 }
 func (g *FakeGS) RegisterRequestorCancelledListener(l graphsync.OnRequestorCancelledListener) graphsync.UnregisterHookFunc {
 	g.RequestorCancelled = l
-	return g.unreg()
+	return g.unreg(func() { g.RequestorCancelled = nil })
 }
 func (g *FakeGS) RegisterBlockSentListener(l graphsync.OnBlockSentListener) graphsync.UnregisterHookFunc {
 	g.BlockSent = l
-	return g.unreg()
+	return g.unreg(func() { g.BlockSent = nil })
 }
 func (g *FakeGS) RegisterNetworkErrorListener(l graphsync.OnNetworkErrorListener) graphsync.UnregisterHookFunc {
 	g.NetworkError = l
-	return g.unreg()
+	return g.unreg(func() { g.NetworkError = nil })
 }
 func (g *FakeGS) RegisterReceiverNetworkErrorListener(l graphsync.OnReceiverNetworkErrorListener) graphsync.UnregisterHookFunc {
 	g.ReceiverNetworkError = l
-	return g.unreg()
+	return g.unreg(func() { g.ReceiverNetworkError = nil })
 }
 
 func (g *FakeGS) Pause(ctx context.Context, id graphsync.RequestID) error {
